@@ -395,7 +395,8 @@ def dynRepl (E : Env) : (inT out : Ty) → Res Ty
         match inT with
         | .map ie => (dynReplAll E ie ots).map fun ts => .object on ts (oo.map fun _ => false)
         | .object inn its ios => (dynReplObj E inn its ios on ots).map fun ts => .object on ts (oo.map fun _ => false)
-        | _ => .ok (.object [] [] [])
+        -- `if !in.IsMapType() && !in.IsObjectType() { return out }`
+        | _ => .ok (.object on ots oo)
       | .set oe =>
         match inT with
         | .set ie => (dynRepl E ie oe).map .set
@@ -414,7 +415,11 @@ def dynRepl (E : Env) : (inT out : Ty) → Res Ty
           | none => .ok (.list oe)
           | some u => (dynRepl E u oe).map .list
         | _ => .ok (.list oe)
-      | .tuple ots => (dynReplTup E inT 0 ots).map .tuple
+      | .tuple ots =>
+        -- `if !in.IsTupleType() || in.Length() != out.Length() { return out }`
+        match inT with
+        | .tuple its => if its.length != ots.length then .ok (.tuple ots) else (dynReplTup E inT 0 ots).map .tuple
+        | _ => .ok (.tuple ots)
 termination_by structural _ out => out
 /-- `dynamicReplace(in.ElementType(), attrType)` for every attribute of out -/
 def dynReplAll (E : Env) : Ty → List Ty → Res (List Ty)
